@@ -162,8 +162,18 @@ def search(chk, broken):
         d0, m0 = at.get_density_factor_and_mach_for_altitude(at.altitude >> U.Foot)
         if d0 != at.density_ratio or m0 != at._mach:
             chk.failures.append(Failure('own-values', 'prediction at the station altitude is not the station pair', {'op': 'own', 'a0_ft': z}))
-        # the shortcut jumps by no more than the 30-ft lapse
+        # the shortcut jumps by no more than the 30-ft lapse - for the standard station and for any station of the domain (-60..60 C)
         a0 = at.altitude >> U.Foot
+        cold = pbc.Atmo(U.Foot(rng.uniform(-1400, 12000)), U.hPa(rng.uniform(500, 1100)), U.Celsius(rng.choice([-60.0, -58.0, -57.0, rng.uniform(-60, 60)])), 0)
+        ac = cold.altitude >> U.Foot
+        for sgn in (1, -1):
+            din, _ = cold.get_density_factor_and_mach_for_altitude(ac + sgn * 29.999)
+            dout, mout = cold.get_density_factor_and_mach_for_altitude(ac + sgn * 30.001)
+            d60, _ = cold.get_density_factor_and_mach_for_altitude(ac + sgn * 60.0)
+            if abs(dout - din) > 1.05 * abs(d60 - dout) + 2e-5 * din or abs(mout - cold._mach) > 3e-4 * cold._mach:
+                chk.failures.append(Failure('shortcut-jump', f'station at {ac:.0f} ft, {cold.temperature >> U.Celsius:.1f} C: density jumps by {abs(dout - din)} across the 30-ft shortcut (the next '
+                                                             f'30 ft change it by {abs(d60 - dout)}), speed of sound {cold._mach} -> {mout}',
+                                            {'op': 'jump', 'a0_ft': ac, 't_C': cold.temperature >> U.Celsius}))
         for sgn in (1, -1):
             din, _ = at.get_density_factor_and_mach_for_altitude(a0 + sgn * 29.999)
             dout, _ = at.get_density_factor_and_mach_for_altitude(a0 + sgn * 30.001)
